@@ -34,3 +34,350 @@ package server
 //@   ensures ok: result.1 == nil ==> result.0 != nil
 //@ extern github.com/bmeg/grip/util.UUID
 //@   pure
+
+// ---- C06: no request can crash the server: unary handlers -----------------------------------
+// Input model: the request message itself is non-nil (gRPC always passes one), every
+// optional sub-message (vertex, edge, ...) may be absent; the server's own fields are
+// set. The handlers must not dereference nil, whatever the request holds.
+//@ func (*GripServer).GetVertex
+//@   property C06
+//@   option load=gripql,gdbi
+//@   nopanic
+//@   requires nonnil: server != nil && elem != nil && server.graphMap != nil && server.dbs != nil && server.conf != nil
+//@   requires dbs: forall k:Str :: has(server.dbs, k) ==> server.dbs[k] != nil
+//@   requires schemas: server.schemas != nil && (forall k:Str :: has(server.schemas, k) ==> server.schemas[k] != nil)
+
+//@ func (*GripServer).GetEdge
+//@   property C06
+//@   option load=gripql,gdbi
+//@   nopanic
+//@   requires nonnil: server != nil && elem != nil && server.graphMap != nil && server.dbs != nil && server.conf != nil
+//@   requires dbs: forall k:Str :: has(server.dbs, k) ==> server.dbs[k] != nil
+//@   requires schemas: server.schemas != nil && (forall k:Str :: has(server.schemas, k) ==> server.schemas[k] != nil)
+
+//@ func (*GripServer).GetTimestamp
+//@   property C06
+//@   option load=gripql,gdbi
+//@   nopanic
+//@   requires nonnil: server != nil && elem != nil && server.graphMap != nil && server.dbs != nil && server.conf != nil
+//@   requires dbs: forall k:Str :: has(server.dbs, k) ==> server.dbs[k] != nil
+//@   requires schemas: server.schemas != nil && (forall k:Str :: has(server.schemas, k) ==> server.schemas[k] != nil)
+
+//@ func (*GripServer).DeleteGraph
+//@   property C06
+//@   option load=gripql,gdbi
+//@   nopanic
+//@   requires nonnil: server != nil && elem != nil && server.graphMap != nil && server.dbs != nil && server.conf != nil
+//@   requires dbs: forall k:Str :: has(server.dbs, k) ==> server.dbs[k] != nil
+//@   requires schemas: server.schemas != nil && (forall k:Str :: has(server.schemas, k) ==> server.schemas[k] != nil)
+
+//@ func (*GripServer).AddGraph
+//@   property C06
+//@   option load=gripql,gdbi
+//@   nopanic
+//@   requires nonnil: server != nil && elem != nil && server.graphMap != nil && server.dbs != nil && server.conf != nil
+//@   requires dbs: forall k:Str :: has(server.dbs, k) ==> server.dbs[k] != nil
+//@   requires schemas: server.schemas != nil && (forall k:Str :: has(server.schemas, k) ==> server.schemas[k] != nil)
+
+//@ func (*GripServer).AddVertex
+//@   property C06
+//@   option load=gripql,gdbi
+//@   nopanic
+//@   requires nonnil: server != nil && elem != nil && server.graphMap != nil && server.dbs != nil && server.conf != nil
+//@   requires dbs: forall k:Str :: has(server.dbs, k) ==> server.dbs[k] != nil
+//@   requires schemas: server.schemas != nil && (forall k:Str :: has(server.schemas, k) ==> server.schemas[k] != nil)
+
+//@ func (*GripServer).addVertex
+//@   property C06
+//@   option load=gripql,gdbi
+//@   nopanic
+//@   requires nonnil: server != nil && elem != nil && server.graphMap != nil && server.dbs != nil && server.conf != nil
+//@   requires dbs: forall k:Str :: has(server.dbs, k) ==> server.dbs[k] != nil
+//@   requires schemas: server.schemas != nil && (forall k:Str :: has(server.schemas, k) ==> server.schemas[k] != nil)
+
+//@ func (*GripServer).AddEdge
+//@   property C06
+//@   option load=gripql,gdbi
+//@   nopanic
+//@   requires nonnil: server != nil && elem != nil && server.graphMap != nil && server.dbs != nil && server.conf != nil
+//@   requires dbs: forall k:Str :: has(server.dbs, k) ==> server.dbs[k] != nil
+//@   requires schemas: server.schemas != nil && (forall k:Str :: has(server.schemas, k) ==> server.schemas[k] != nil)
+
+//@ func (*GripServer).addEdge
+//@   property C06
+//@   option load=gripql,gdbi
+//@   nopanic
+//@   requires nonnil: server != nil && elem != nil && server.graphMap != nil && server.dbs != nil && server.conf != nil
+//@   requires dbs: forall k:Str :: has(server.dbs, k) ==> server.dbs[k] != nil
+//@   requires schemas: server.schemas != nil && (forall k:Str :: has(server.schemas, k) ==> server.schemas[k] != nil)
+
+//@ func (*GripServer).DeleteVertex
+//@   property C06
+//@   option load=gripql,gdbi
+//@   nopanic
+//@   requires nonnil: server != nil && elem != nil && server.graphMap != nil && server.dbs != nil && server.conf != nil
+//@   requires dbs: forall k:Str :: has(server.dbs, k) ==> server.dbs[k] != nil
+//@   requires schemas: server.schemas != nil && (forall k:Str :: has(server.schemas, k) ==> server.schemas[k] != nil)
+
+//@ func (*GripServer).DeleteEdge
+//@   property C06
+//@   option load=gripql,gdbi
+//@   nopanic
+//@   requires nonnil: server != nil && elem != nil && server.graphMap != nil && server.dbs != nil && server.conf != nil
+//@   requires dbs: forall k:Str :: has(server.dbs, k) ==> server.dbs[k] != nil
+//@   requires schemas: server.schemas != nil && (forall k:Str :: has(server.schemas, k) ==> server.schemas[k] != nil)
+
+//@ func (*GripServer).AddIndex
+//@   property C06
+//@   option load=gripql,gdbi
+//@   nopanic
+//@   requires nonnil: server != nil && idx != nil && server.graphMap != nil && server.dbs != nil && server.conf != nil
+//@   requires dbs: forall k:Str :: has(server.dbs, k) ==> server.dbs[k] != nil
+//@   requires schemas: server.schemas != nil && (forall k:Str :: has(server.schemas, k) ==> server.schemas[k] != nil)
+
+//@ func (*GripServer).DeleteIndex
+//@   property C06
+//@   option load=gripql,gdbi
+//@   nopanic
+//@   requires nonnil: server != nil && idx != nil && server.graphMap != nil && server.dbs != nil && server.conf != nil
+//@   requires dbs: forall k:Str :: has(server.dbs, k) ==> server.dbs[k] != nil
+//@   requires schemas: server.schemas != nil && (forall k:Str :: has(server.schemas, k) ==> server.schemas[k] != nil)
+
+//@ func (*GripServer).ListIndices
+//@   property C06
+//@   option load=gripql,gdbi
+//@   nopanic
+//@   requires nonnil: server != nil && idx != nil && server.graphMap != nil && server.dbs != nil && server.conf != nil
+//@   requires dbs: forall k:Str :: has(server.dbs, k) ==> server.dbs[k] != nil
+//@   requires schemas: server.schemas != nil && (forall k:Str :: has(server.schemas, k) ==> server.schemas[k] != nil)
+
+//@ func (*GripServer).ListLabels
+//@   property C06
+//@   option load=gripql,gdbi
+//@   nopanic
+//@   requires nonnil: server != nil && idx != nil && server.graphMap != nil && server.dbs != nil && server.conf != nil
+//@   requires dbs: forall k:Str :: has(server.dbs, k) ==> server.dbs[k] != nil
+//@   requires schemas: server.schemas != nil && (forall k:Str :: has(server.schemas, k) ==> server.schemas[k] != nil)
+
+//@ func (*GripServer).GetSchema
+//@   property C06
+//@   option load=gripql,gdbi
+//@   nopanic
+//@   requires nonnil: server != nil && elem != nil && server.graphMap != nil && server.dbs != nil && server.conf != nil
+//@   requires dbs: forall k:Str :: has(server.dbs, k) ==> server.dbs[k] != nil
+//@   requires schemas: server.schemas != nil && (forall k:Str :: has(server.schemas, k) ==> server.schemas[k] != nil)
+
+//@ func (*GripServer).AddSchema
+//@   property C06
+//@   option load=gripql,gdbi
+//@   nopanic
+//@   requires nonnil: server != nil && req != nil && server.graphMap != nil && server.dbs != nil && server.conf != nil
+//@   requires dbs: forall k:Str :: has(server.dbs, k) ==> server.dbs[k] != nil
+//@   requires schemas: server.schemas != nil && (forall k:Str :: has(server.schemas, k) ==> server.schemas[k] != nil)
+
+//@ func (*GripServer).GetMapping
+//@   property C06
+//@   option load=gripql,gdbi
+//@   nopanic
+//@   requires nonnil: server != nil && elem != nil && server.graphMap != nil && server.dbs != nil && server.conf != nil
+//@   requires dbs: forall k:Str :: has(server.dbs, k) ==> server.dbs[k] != nil
+//@   requires schemas: server.schemas != nil && (forall k:Str :: has(server.schemas, k) ==> server.schemas[k] != nil)
+
+//@ func (*GripServer).AddMapping
+//@   property C06
+//@   option load=gripql,gdbi
+//@   nopanic
+//@   requires nonnil: server != nil && req != nil && server.graphMap != nil && server.dbs != nil && server.conf != nil
+//@   requires dbs: forall k:Str :: has(server.dbs, k) ==> server.dbs[k] != nil
+//@   requires schemas: server.schemas != nil && (forall k:Str :: has(server.schemas, k) ==> server.schemas[k] != nil)
+
+//@ func (*GripServer).Traversal
+//@   property C06
+//@   option load=gripql,gdbi
+//@   nopanic
+//@   requires stream: queryServer != nil
+//@   requires nonnil: server != nil && query != nil && server.graphMap != nil && server.dbs != nil && server.conf != nil
+//@   requires dbs: forall k:Str :: has(server.dbs, k) ==> server.dbs[k] != nil
+//@   requires schemas: server.schemas != nil && (forall k:Str :: has(server.schemas, k) ==> server.schemas[k] != nil)
+
+//@ func (*GripServer).ListGraphs
+//@   property C06
+//@   option load=gripql,gdbi
+//@   nopanic
+//@   requires nonnil: server != nil && empty != nil && server.graphMap != nil && server.dbs != nil && server.conf != nil
+//@   requires dbs: forall k:Str :: has(server.dbs, k) ==> server.dbs[k] != nil
+//@   requires schemas: server.schemas != nil && (forall k:Str :: has(server.schemas, k) ==> server.schemas[k] != nil)
+
+
+// Graph handles and compilers as the handlers use them (ASSUMED of the drivers): a
+// successful lookup yields a usable object; none of these calls touches the server's
+// own fields.
+//@ iface github.com/bmeg/grip/gdbi.GraphInterface.Compiler
+//@   params self
+//@   pure
+//@   ensures nonnil: result != nil
+//@ iface github.com/bmeg/grip/gdbi.Compiler.Compile
+//@   params self stmts opts
+//@   pure
+//@   ensures ok: result.1 == nil ==> result.0 != nil
+//@ iface github.com/bmeg/grip/gripql.Query_TraversalServer.Context
+//@   params self
+//@   pure
+//@ iface github.com/bmeg/grip/gripql.Query_TraversalServer.Send
+//@   params self m
+//@   pure
+//@ extern github.com/bmeg/grip/engine/pipeline.Run
+//@   pure
+//@   fresh
+
+//@ iface github.com/bmeg/grip/gdbi.GraphDB.ListGraphs
+//@   params self
+//@   pure
+//@ iface github.com/bmeg/grip/gdbi.GraphInterface.AddVertex
+//@   params self vertices
+//@   modifies KV. TS.
+//@ iface github.com/bmeg/grip/gdbi.GraphInterface.AddEdge
+//@   params self edges
+//@   modifies KV. TS.
+//@ iface github.com/bmeg/grip/gdbi.GraphInterface.DelVertex
+//@   params self id
+//@   modifies KV. TS.
+//@ iface github.com/bmeg/grip/gdbi.GraphInterface.DelEdge
+//@   params self id
+//@   modifies KV. TS.
+// addFullGraph stores a schema / mapping graph through the server's own client connection;
+// it does not touch the server's fields (ASSUMED).
+//@ func (*GripServer).addFullGraph
+//@   trusted
+//@   pure
+
+//@ func (*GripServer).graphExists
+//@   property C06
+//@   option load=gripql,gdbi
+//@   nopanic
+//@   pure
+//@   requires nonnil: server != nil && server.graphMap != nil && server.dbs != nil && server.conf != nil
+//@   requires dbs: forall k:Str :: has(server.dbs, k) ==> server.dbs[k] != nil
+//@ iface github.com/bmeg/grip/gdbi.GraphDB.DeleteGraph
+//@   params self graph
+//@   modifies KV. TS.
+//@ iface github.com/bmeg/grip/gdbi.GraphDB.AddGraph
+//@   params self graph
+//@   modifies KV. TS.
+
+//@ func (*GripServer).SampleSchema
+//@   property C06
+//@   option load=gripql,gdbi,jobstorage
+//@   nopanic
+//@   requires nonnil: server != nil && elem != nil && server.graphMap != nil && server.dbs != nil && server.conf != nil && server.jStorage != nil
+//@   requires dbs: forall k:Str :: has(server.dbs, k) ==> server.dbs[k] != nil
+
+//@ func (*GripServer).Submit
+//@   property C06
+//@   option load=gripql,gdbi,jobstorage
+//@   nopanic
+//@   requires nonnil: server != nil && query != nil && server.graphMap != nil && server.dbs != nil && server.conf != nil && server.jStorage != nil
+//@   requires dbs: forall k:Str :: has(server.dbs, k) ==> server.dbs[k] != nil
+
+//@ func (*GripServer).GetJob
+//@   property C06
+//@   option load=gripql,gdbi,jobstorage
+//@   nopanic
+//@   requires nonnil: server != nil && job != nil && server.graphMap != nil && server.dbs != nil && server.conf != nil && server.jStorage != nil
+//@   requires dbs: forall k:Str :: has(server.dbs, k) ==> server.dbs[k] != nil
+
+//@ func (*GripServer).DeleteJob
+//@   property C06
+//@   option load=gripql,gdbi,jobstorage
+//@   nopanic
+//@   requires nonnil: server != nil && job != nil && server.graphMap != nil && server.dbs != nil && server.conf != nil && server.jStorage != nil
+//@   requires dbs: forall k:Str :: has(server.dbs, k) ==> server.dbs[k] != nil
+
+//@ func (*GripServer).ListJobs
+//@   property C06
+//@   option load=gripql,gdbi,jobstorage
+//@   nopanic
+//@   requires nonnil: server != nil && graph != nil && srv != nil && server.graphMap != nil && server.dbs != nil && server.conf != nil && server.jStorage != nil
+//@   requires dbs: forall k:Str :: has(server.dbs, k) ==> server.dbs[k] != nil
+
+//@ func (*GripServer).SearchJobs
+//@   property C06
+//@   option load=gripql,gdbi,jobstorage
+//@   nopanic
+//@   requires nonnil: server != nil && query != nil && srv != nil && server.graphMap != nil && server.dbs != nil && server.conf != nil && server.jStorage != nil
+//@   requires dbs: forall k:Str :: has(server.dbs, k) ==> server.dbs[k] != nil
+
+//@ func (*GripServer).ViewJob
+//@   property C06
+//@   option load=gripql,gdbi,jobstorage
+//@   nopanic
+//@   requires nonnil: server != nil && job != nil && srv != nil && server.graphMap != nil && server.dbs != nil && server.conf != nil && server.jStorage != nil
+//@   requires dbs: forall k:Str :: has(server.dbs, k) ==> server.dbs[k] != nil
+
+//@ func (*GripServer).ResumeJob
+//@   property C06
+//@   option load=gripql,gdbi,jobstorage
+//@   nopanic
+//@   requires nonnil: server != nil && query != nil && srv != nil && server.graphMap != nil && server.dbs != nil && server.conf != nil && server.jStorage != nil
+//@   requires dbs: forall k:Str :: has(server.dbs, k) ==> server.dbs[k] != nil
+
+//@ func (*GripServer).ListTables
+//@   property C06
+//@   option load=gripql,gdbi,jobstorage
+//@   nopanic
+//@   requires nonnil: server != nil && empty != nil && srv != nil && server.graphMap != nil && server.dbs != nil && server.conf != nil && server.jStorage != nil
+//@   requires dbs: forall k:Str :: has(server.dbs, k) ==> server.dbs[k] != nil
+
+// Job storage and compiled pipelines as the job handlers use them (ASSUMED): a call that
+// reports no error returns a usable object; none of them touches the server's fields.
+//@ iface github.com/bmeg/grip/jobstorage.JobStorage.Stream
+//@   params self ctx graph id
+//@   pure
+//@   fresh
+//@   ensures ok: result.1 == nil ==> result.0 != nil
+//@   ensures items: result.1 == nil ==> (forall j :: 0 <= j && j < len(result.0.Pipe) ==> result.0.Pipe[j] != nil)
+//@ iface github.com/bmeg/grip/jobstorage.JobStorage.Spool
+//@   params self graph stream
+//@   pure
+//@ iface github.com/bmeg/grip/jobstorage.JobStorage.List
+//@   params self graph
+//@   pure
+//@ iface github.com/bmeg/grip/jobstorage.JobStorage.Search
+//@   params self graph query
+//@   pure
+//@ iface github.com/bmeg/grip/jobstorage.JobStorage.Delete
+//@   params self graph id
+//@   pure
+//@ iface github.com/bmeg/grip/jobstorage.JobStorage.Status
+//@   params self graph id
+//@   pure
+//@ iface github.com/bmeg/grip/gdbi.Pipeline.DataType
+//@   params self
+//@   pure
+//@ iface github.com/bmeg/grip/gdbi.Pipeline.MarkTypes
+//@   params self
+//@   pure
+//@ extern github.com/bmeg/grip/engine/pipeline.Start
+//@   pure
+//@   fresh
+//@ extern github.com/bmeg/grip/engine.NewManager
+//@   pure
+//@ iface github.com/bmeg/grip/gdbi.GraphDB.BuildSchema
+//@   params self ctx graph n random
+//@   pure
+//@   ensures ok: result.1 == nil ==> result.0 != nil
+//@ iface github.com/bmeg/grip/gripql.Job_ViewJobServer.Send
+//@   params self m
+//@   pure
+//@ iface github.com/bmeg/grip/gripql.Job_ListJobsServer.Send
+//@   params self m
+//@   pure
+//@ iface github.com/bmeg/grip/gripql.Job_SearchJobsServer.Send
+//@   params self m
+//@   pure
+//@ iface github.com/bmeg/grip/gripql.Job_ResumeJobServer.Send
+//@   params self m
+//@   pure
+//@ iface github.com/bmeg/grip/gripql.Query_ListTablesServer.Send
+//@   params self m
+//@   pure
